@@ -292,6 +292,51 @@ def derived_name_cases(tier):
     return cases
 
 
+VAL_SCHEMA = """
+enum Kind { A B }
+scalar Bignum
+input Patch { bio: String age: Int flag: Boolean kind: Kind tags: [String] inner: Patch big: Bignum score: Float }
+type T { id: ID! echo(n: Int, s: String, b: Boolean, f: Float, k: Kind, big: Bignum, p: Patch): String needbig(big: Bignum!): String tagged(tags: [String]): String }
+type Query { t: T echo(n: Int, s: String, b: Boolean, f: Float, k: Kind, big: Bignum, p: Patch): String needbig(big: Bignum!): String tagged(tags: [String]): String }
+type Mutation { patch(p: Patch!, big: Bignum, note: String): T }
+"""
+VAL_OPTIONS = {"scalars": {"Bignum": {"type": "int", "serialize": "str"}}}
+# (python keyword arguments, GraphQL argument text, tags): valid values that are falsy in Python, explicit nulls inside input objects
+VAL_ARGS = [
+    ("n=0", "n: 0", {"falsy:int"}), ("n=5", "n: 5", set()), ("s=''", 's: ""', {"falsy:str"}), ("b=False", "b: false", {"falsy:bool"}), ("f=0.0", "f: 0.0", {"falsy:float"}),
+    ("n=0, s='', b=False", 'n: 0, s: "", b: false', {"falsy:int", "falsy:str", "falsy:bool"}), ("n=None, s='x'", 's: "x"', {"none_arg"}),
+    ("big=7", 'big: "7"', {"serialized_scalar"}), ("big=0", 'big: "0"', {"serialized_scalar", "falsy:scalar"}), ("big=0, n=0", 'big: "0", n: 0', {"serialized_scalar", "falsy:scalar", "falsy:int"}),
+    ("p=Patch(bio='b')", 'p: {bio: "b"}', {"input_arg"}), ("p=Patch(bio=None)", "p: {bio: null}", {"input_arg", "explicit_null_in_input"}),
+    ("p=Patch(bio=None, age=3, kind=Kind.A)", "p: {bio: null, age: 3, kind: A}", {"input_arg", "explicit_null_in_input"}),
+    ("p=Patch(age=0, flag=False, bio='', tags=[], score=0.0)", 'p: {age: 0, flag: false, bio: "", tags: [], score: 0.0}', {"input_arg", "falsy_in_input"}),
+    ("p=Patch(inner=Patch(bio=None, kind=Kind.B))", "p: {inner: {bio: null, kind: B}}", {"input_arg", "explicit_null_in_input", "nested_input"}),
+    ("p=Patch(inner=None, tags=None)", "p: {inner: null, tags: null}", {"input_arg", "explicit_null_in_input"}),
+    ("p=Patch(tags=[None, 'x'])", 'p: {tags: [null, "x"]}', {"input_arg", "null_list_item_in_input"}),
+    ("p=Patch(big=0, age=1)", 'p: {big: "0", age: 1}', {"input_arg", "serialized_scalar_in_input", "falsy:scalar"}),
+    ("p=Patch(big=9)", 'p: {big: "9"}', {"input_arg", "serialized_scalar_in_input"}),
+    ("p=Patch()", "p: {}", {"input_arg", "empty_input"}),
+]
+
+
+def derived_value_cases(tier):
+    """Argument VALUES: every entry of VAL_ARGS at a root field, at a method field one level down and (inputs) in a mutation, sync and async."""
+    cases = []
+    for cfg in ({}, {"async_client": False}):
+        for py, gql, tags in VAL_ARGS:
+            ops = [("query", [(f"Query.echo({py})", f"echo({gql})", set())]),
+                   ("query", [(f"Query.t().fields(TFields.echo({py}), TFields.id)", f"t {{ echo({gql}) id }}", set())])]
+            if py.startswith("p="):
+                ops.append(("mutation", [(f"Mutation.patch({py}, note='').fields(TFields.id)", f'patch({gql}, note: "") {{ id }}', set())]))
+                ops.append(("mutation", [(f"Mutation.patch({py}, big=0).fields(TFields.id)", f'patch({gql}, big: "0") {{ id }}', set())]))
+            if py.startswith("big=") and "," not in py:
+                ops.append(("query", [(f"Query.needbig({py})", f"needbig({gql})", set())]))
+                ops.append(("query", [(f"Query.t().fields(TFields.needbig({py}))", f"t {{ needbig({gql}) }}", set())]))
+            for op in ops:
+                where = "mutation" if op[0] == "mutation" else ("nested_field" if "TFields.echo" in op[1][0][0] or "TFields.needbig" in op[1][0][0] else "root_field")
+                cases.append(dict(kind="expr", options=dict(cfg, **VAL_OPTIONS), schema_text=VAL_SCHEMA, ops=[op], tags=set(tags) | {"derived_values", f"value_at:{where}"}))
+    return cases
+
+
 def derived_shape_cases(tier):
     """Every wrapper shape (14) around an object type as nested method field and as root field, and around Int as argument type."""
     from mc import corpus
@@ -445,7 +490,7 @@ def main(tier):
             pass
         for o in sel:
             cases.append(dict(kind="expr", options=cfg, ops=[(o[0], o[1])], tags=o[2]))
-    cases += derived_name_cases(tier) + derived_graph_cases(tier) + derived_shape_cases(tier)
+    cases += derived_name_cases(tier) + derived_graph_cases(tier) + derived_shape_cases(tier) + derived_value_cases(tier)
     results = pool.run_cases(evaluate, cases, timeout=300, progress=500)
     docs = 0
     distinct = set()
